@@ -567,6 +567,53 @@ func isFullDigitClass(runes []rune) bool {
 	return len(runes) == 2 && runes[0] == '0' && runes[1] == '9'
 }
 
+// reverseDropsAssertion reports whether the pattern contains a look-around assertion that the
+// reverse NFA cannot honour. nfa.ReverseAnchored turns every assertion into an epsilon edge, so a
+// reverse scan for the match start accepts start positions the assertion rules out
+// (\bfoo.*bar on "xfoo foo bar": start 1 instead of 5). Harmless are only \A as the very first
+// and \z/$ as the very last element of the pattern: the former makes the pattern anchored (no
+// reverse scan is run), the latter is settled by the end position the reverse scan starts from.
+func reverseDropsAssertion(re *syntax.Regexp) bool {
+	body := re
+	for body.Op == syntax.OpCapture && len(body.Sub) == 1 {
+		body = body.Sub[0]
+	}
+	if body.Op == syntax.OpConcat {
+		subs := body.Sub
+		if len(subs) > 0 && subs[0].Op == syntax.OpBeginText {
+			subs = subs[1:]
+		}
+		if len(subs) > 0 && subs[len(subs)-1].Op == syntax.OpEndText {
+			subs = subs[:len(subs)-1]
+		}
+		for _, sub := range subs {
+			if containsAssertion(sub) {
+				return true
+			}
+		}
+		return false
+	}
+	if body.Op == syntax.OpBeginText || body.Op == syntax.OpEndText {
+		return false
+	}
+	return containsAssertion(body)
+}
+
+// containsAssertion reports whether any zero-width assertion occurs in the tree.
+func containsAssertion(re *syntax.Regexp) bool {
+	switch re.Op {
+	case syntax.OpBeginLine, syntax.OpEndLine, syntax.OpBeginText, syntax.OpEndText,
+		syntax.OpWordBoundary, syntax.OpNoWordBoundary:
+		return true
+	}
+	for _, sub := range re.Sub {
+		if containsAssertion(sub) {
+			return true
+		}
+	}
+	return false
+}
+
 // isSafeForReverseSuffix checks if a pattern is safe for UseReverseSuffix strategy.
 // Returns true only for patterns where reverse search is proven to work correctly.
 //
